@@ -357,7 +357,9 @@ class Session:
         if e is None or e is getattr(self, "_last_exc", None):
             return None
         self._last_exc = e
-        return type(e).__name__
+        cause = getattr(e, "__cause__", None)
+        # a later revision reports unexpected errors wrapped in SSHException (cause preserved)
+        return type(cause if cause is not None else e).__name__
 
     def wire_consistent(self):
         """what the client decrypted is a prefix of what the server handed to its packetizer (all of it when
@@ -854,23 +856,18 @@ def quiet_logging():
     lg.propagate = False
 
 
-def run_profile(ctx, driver_name, profile, n_sessions, tables, max_steps=12):
-    """correspondence for `n_sessions` scripted sessions; returns the traces for the oracles:
+def run_sessions(ctx, driver_name, makers):
+    """correspondence for scripted sessions; makers = [(gss_kex, fn(session_id) -> steps)];
+    returns the traces for the oracles:
     [{sid, gss_kex, steps, real (canonical observations), model (parsed replies or None)}]"""
     quiet_logging()
-    rng = ctx.rng
     traces = []
     lines = []
-    for i in range(n_sessions):
-        gss_kex = rng.random() < (0.5 if profile == "c14" else 0.25)
-        gen = Gen(rng, profile, tables)
-        sid, steps, obs = run_real(lambda sid_: gen.session(sid_, max_steps), gss_kex)
+    for gss_kex, mk in makers:
+        sid, steps, obs = run_real(mk, gss_kex)
         real = []
-        prev_exc = None
-        authed_before = False
         for st, o in zip(steps, obs):
-            c = canon_real(o, prev_exc)
-            prev_exc = o["exc"]
+            c = canon_real(o, None)
             # what a delegated (unmodelled) handler did is an input of the model
             st["tok"] = st["tok"] + ["ddrop=%d" % (0 if o["active"] else 1),
                                      "dnew=%d" % max(0, o["nchan"] - (real[-1]["chans"] if real else 0))]
@@ -889,6 +886,28 @@ def run_profile(ctx, driver_name, profile, n_sessions, tables, max_steps=12):
             ctx.disagree("driver rejected a request", {"sid": tr["sid"].hex()}, rs[:3], "bad-op")
             tr["model"] = None
     return traces
+
+
+def profile_makers(ctx, profile, n_sessions, tables, max_steps=12):
+    rng = ctx.rng
+    makers = []
+    for _ in range(n_sessions):
+        gss_kex = rng.random() < (0.5 if profile == "c14" else 0.25)
+        gen = Gen(rng, profile, tables)
+        makers.append((gss_kex, (lambda sid_, g=gen: g.session(sid_, max_steps))))
+    return makers
+
+
+def run_profile(ctx, driver_name, profile, n_sessions, tables, max_steps=12):
+    return run_sessions(ctx, driver_name, profile_makers(ctx, profile, n_sessions, tables, max_steps))
+
+
+def mk_step(gen, ptype, payload, env_over=None, extra_tok=(), meta=None):
+    """one hand-made step in the format Gen.session produces"""
+    e = gen.env()
+    e.update(env_over or {})
+    return {"ptype": ptype, "payload": payload, "env": e, "tok": gen.env_tokens(e) + list(extra_tok),
+            "meta": meta or {"kind": "fixed"}}
 
 
 def describe(tr, upto=None):
